@@ -268,6 +268,8 @@ func c20DrawTape(rt *rapid.T) []byte {
 		return rapid.SliceOfN(rapid.Byte(), 0, 16).Draw(rt, "tape")
 	case 1: // dense: high bytes make most optional things present
 		return rapid.SliceOfN(rapid.ByteRange(128, 255), 32, 400).Draw(rt, "tape")
+	case 2: // sparse: mostly-zero values with the first non-default choice here and there
+		return rapid.SliceOfN(rapid.SampledFrom([]byte{0, 0, 0, 0, 1, 1, 2, 3}), 0, 200).Draw(rt, "tape")
 	default:
 		return rapid.SliceOfN(rapid.Byte(), 0, 400).Draw(rt, "tape")
 	}
